@@ -444,3 +444,28 @@ def keyed_collapses(F, g):
                             out.append((mt["line"], "key computed by %s(..) - elements whose computed keys collide collapse into one entry of the %s" % (
                                 o.callee.split("::")[-1], tgt.rstrip("<"))))
     return out
+
+
+def float_sites(F, reach, crates=None):
+    """[(fn record, line, what)] where a value passes through floating point in the given functions: int<->float casts, float
+    arithmetic / comparisons, and calls that hand out a float view of a number (`as_f64`, `parse::<f64>`)"""
+    out = []
+    for p in sorted(reach):
+        f = F.built.get(p, F.fns.get(p))
+        if f is None or is_derive(f) or (crates and f["crate"] not in crates):
+            continue
+        for bi, si, s in mir.stmts(f):
+            rv = s["rv"]
+            if site_in_derive(s.get("exp", "")):
+                continue
+            if rv["k"] == "cast" and rv["ck"] in ("FloatToInt", "IntToFloat", "FloatToFloat"):
+                out.append((f, s["line"], "%s cast %s -> %s" % (rv["ck"], rv["from"], rv["to"])))
+            elif rv["k"] == "binop" and rv.get("ty") in ("f64", "f32"):
+                out.append((f, s["line"], "%s on %s" % (rv["op"], rv["ty"])))
+        for bi, t in mir.calls(f):
+            c = t.get("callee") or ""
+            last = c.split("::")[-1]
+            if last in ("as_f64", "as_f32") or (("f64" in c or "f32" in c) and (c.startswith("std::f64::") or "<impl f64>" in c or "<impl f32>" in c)) \
+                    or (last == "parse" and any(g in ("f64", "f32") for g in (t.get("gargs") or []))):
+                out.append((f, t["line"], "call of %s" % c.split("::<")[0]))
+    return out
